@@ -9,6 +9,7 @@ open Mtbl_model
 type string = Stdlib.String.t
 
 external c_set_mmap_mode : int -> unit = "vp_set_mmap_mode"
+external c_reader_init_fd : int -> bool -> nativeint = "vp_reader_init_fd"
 
 let engine = "c19"
 let rule = "file contents: valid v2 tables from the real writer and v1/v2 tables from the independent encoder, then (a) every single-field mutation of the trailer's index offset to boundary values (0, around file size - 512 - {13,16}, 2^32, 2^63, 2^64 - k for k up to 600) and of either magic, (b) the index block's length prefix replaced by huge / overlong / truncated encodings in both format versions, (c) truncation to every length in sampled ranges, (c') files of 525..532 bytes whose index block starts with a 9- or 10-byte length varint, (d) random bytes and random byte flips in trailer and index header; each with and without verify_checksums and in both guard-page placements. Non-trivial: content differs from the valid base; distinct by content hash."
@@ -60,6 +61,26 @@ let splice s off (repl : string) = (* overwrite bytes at off with repl (no lengt
   let b = Bytes.of_string s in
   String.iteri (fun i c -> if off + i < Bytes.length b then Bytes.set b (off + i) c) repl; Bytes.to_string b
 
+(* handles whose size looks fine but which cannot be mapped for reading: a descriptor opened write-only on a valid table, a
+   directory.  mmap fails; the open must return NULL (no reader, no access through the failed mapping) *)
+let unmappable acc (valid_table : string) =
+  let dir = Wr.tmpdir () in
+  let path = Filename.concat dir (Printf.sprintf "c19_wo_%d.mtbl" (Unix.getpid ())) in
+  Rd.write_file path valid_table;
+  List.iter (fun (what, f) ->
+    List.iter (fun verify ->
+      let case = lazy (JO [ "handle", JS what; "verify_checksums", JB verify ]) in
+      record acc ~key:("unmappable-" ^ what ^ (if verify then "v" else "n")) ~nontrivial:true ~klass:"unmappable_handle" case;
+      (match in_child (fun () -> c_set_mmap_mode 0; if f verify = 0n then "NULL" else "READER") with
+       | Exited (_, "NULL") -> ()
+       | Exited (_, o) -> fail acc ~kind:"spec_violation" ~what:"[C19] a reader was returned for a handle that cannot be mapped" (JO [ "case", Lazy.force case; "outcome", JS o ])
+       | Signaled (sg, _) -> fail acc ~kind:"spec_violation" ~what:"[C19] mtbl_reader_init on a handle that cannot be mapped accessed memory outside any file (the failed mapping)"
+                               (JO [ "case", Lazy.force case; "signal", JI sg ]))) [ false; true ])
+    [ ("table opened O_WRONLY, mtbl_reader_init_fd", (fun verify ->
+          let fd = Unix.openfile path [ Unix.O_WRONLY ] 0 in let r = c_reader_init_fd (Obj.magic fd : int) verify in Unix.close fd; r));
+      ("a directory, mtbl_reader_init", (fun verify -> Rd.c_reader_init dir verify false)) ];
+  (try Sys.remove path with _ -> ())
+
 let run ~tier ~seed ~only acc =
   let idx = ref 0 in
   let want () = cur_index := !idx; (match only with None -> true | Some i -> i = !idx) in
@@ -80,6 +101,7 @@ let run ~tier ~seed ~only acc =
     let d what = lazy (JO [ "base", JS bname; "base_len", JI n; "mutation", JS what ]) in
     let c ~klass what content = if want () then check acc ~klass content (d what); incr idx in
     c ~klass:"valid_base" "none" base;
+    if bname = "v2" && want () then unmappable acc base; if bname = "v2" then incr idx;
     let ibo_off = n - 512 in
     let ibo = get_le base ibo_off 8 in
     (* (a) index offset field *)
